@@ -154,6 +154,11 @@ fn expectation(s: &Sel, p: &[TInd]) -> Expect {
     }
 }
 
+/// does `sel` contain some individual more often than the population holds it? (exact twins are separate individuals)
+fn more_often_than_available(sel: &[(u32, Option<f64>)], pop: &[(u32, Option<f64>)]) -> bool {
+    sel.iter().any(|m| sel.iter().filter(|x| *x == m).count() > pop.iter().filter(|x| *x == m).count())
+}
+
 fn pclass(p: &[TInd]) -> &'static str {
     if p.is_empty() {
         "empty"
@@ -260,10 +265,7 @@ fn check(s: &Sel, p: &[TInd], out: &Outcome<Obs>) -> Option<(String, String)> {
             }
         }
         Sel::RandWoRep(_) => {
-            let mut tags: Vec<u32> = selc.iter().map(|m| m.0).collect();
-            tags.sort();
-            tags.dedup();
-            if tags.len() != selc.len() {
+            if more_often_than_available(selc, &src) {
                 return Some((format!("{} repetition", head), ctx(format!("selected {:?}", selc))));
             }
         }
@@ -286,26 +288,28 @@ fn check(s: &Sel, p: &[TInd], out: &Outcome<Obs>) -> Option<(String, String)> {
                         if grp[0] != src[gi] || grp[1].1 != Some(min) {
                             return Some((format!("{} group-layout", head), ctx(format!("group {} = {:?}, expected [current, best, ...]", gi, grp))));
                         }
-                        if grp[2..].iter().any(|m| *m == src[gi]) {
+                        // the current individual is not among the random members (an exact twin of it may be)
+                        if grp[2..].iter().filter(|m| **m == src[gi]).count() > src.iter().filter(|m| **m == src[gi]).count() - 1 {
                             return Some((format!("{} current-among-random", head), ctx(format!("group {} = {:?}", gi, grp))));
                         }
                         &grp[2..]
                     }
                     _ => grp,
                 };
-                let mut t: Vec<u32> = rest.iter().map(|m| m.0).collect();
-                t.sort();
-                t.dedup();
-                if t.len() != rest.len() {
+                if more_often_than_available(rest, &src) {
                     return Some((format!("{} group-repetition", head), ctx(format!("group {} = {:?}: the random members must be distinct", gi, grp))));
                 }
             }
         }
         Sel::Dfp(lo, hi) => {
             let max = p.iter().map(|i| i.1).fold(f64::NEG_INFINITY, f64::max);
+            // exact twins are separate individuals: each of them gets its own number of copies
+            let twins = |a: &TInd| p.iter().filter(|x| x.0 == a.0 && x.1 == a.1).count() as u32;
             let count = |tag: u32| selc.iter().filter(|m| m.0 == tag).count() as u32;
             for a in p {
+                let k = twins(a);
                 let c = count(a.0);
+                let (lo, hi) = (lo * k, hi * k);
                 if c < lo.min(hi) || c > hi.max(lo) {
                     return Some((format!("{} copies-out-of-range", head), ctx(format!("individual {:?} selected {} times, allowed {}..={}", a, c, lo, hi))));
                 }
@@ -375,6 +379,10 @@ fn populations(max_n: usize) -> Vec<Vec<TInd>> {
     pops.push(vec![(0, 3e-17), (1, 1e-17), (2, 0.0), (3, 2e-17)]);
     pops.push(vec![(0, 1.0 + 4.0 * f64::EPSILON), (1, 1.0 + f64::EPSILON), (2, 1.0 + 2.0 * f64::EPSILON)]);
     pops.push(vec![(0, 1.0), (1, 0.0), (2, -0.0)]);
+    // exact twins (same solution, same objective): still separate individuals for counts and distinctness
+    pops.push(vec![(0, 1.0), (0, 1.0), (1, 2.0)]);
+    pops.push(vec![(0, 1.0), (0, 1.0), (0, 1.0), (0, 1.0)]);
+    pops.push(vec![(0, 2.0), (1, 1.0), (0, 2.0), (1, 1.0)]);
     // larger populations for the DE selections (need 2y+1 members)
     pops.push((0..5).map(|i| (i as u32, [3.0, -1.0, 0.0, 0.0, 7.0][i])).collect());
     pops.push((0..6).map(|i| (i as u32, [1.0, 1.0, 1.0, 0.5, 2.0, 0.5][i])).collect());
